@@ -103,8 +103,8 @@ theorem literal_block_scalar_token (sm : Marker) (hd : Hdr) (b0 : Brk) (ind : Na
       tok.span.start.line = L + 1 ∧ tok.span.start.col = ind ∧
       tok.span.stop.line = L + 1 + ls.length + 1 ∧ tok.span.stop.col = 0 ∧
       u'.inp.iter = tail ∧ u'.mark.line = L + 1 + ls.length + 1 ∧ u'.mark.col = 0 := by
-  rcases literal_block_token sm hd b0 ind hind tail ht1 ht2 ls l b hl hl1 hls u L u.mark.col u.indent hI
-      ⟨hk, hi, hline, rfl, rfl⟩ with h | ⟨tok, u', hok, ⟨h1, h2, h3, h4, h5⟩, _, h7, h8, h9⟩
+  rcases literal_block_token sm hd b0 ind hind tail ht1 ht2 ls l b hl hl1 hls u L u.mark.col u.indent _ hI
+      ⟨hk, hi, hline, rfl, rfl, rfl⟩ with h | ⟨tok, u', hok, ⟨h1, h2, h3, h4, h5, _, _⟩, _, h7, h8, h9, _⟩
   · exact Or.inl h
   · exact Or.inr ⟨tok, u', hok, h1, h2, h3, h4, h5, h7, h8, h9⟩
 
